@@ -147,7 +147,7 @@ def build(prog):
 
 def gen_prog(rng, families, small=False):
     fam = rng.choice(families)
-    prog = dict(family=fam, n=rng.choice([0, 1, 2, 3, 3, 5, 5, 8]) if not small else rng.choice([2, 3]), m=rng.choice([1, 2, 3]),
+    prog = dict(family=fam, n=rng.choice([0, 1, 2, 3, 3, 5, 5, 8]) if not small else rng.choice([2, 3]), m=rng.choice([0, 1, 1, 2, 2, 3, 3]),
                 dtype=rng.choice(['float', 'float', 'int', 'complex']), dseed=rng.randrange(1 << 30))
     if fam == 'P1':
         prog['scalar'] = rng.random() < 0.3
@@ -159,5 +159,6 @@ def gen_prog(rng, families, small=False):
         prog['n2'] = rng.choice([1, 2, 3, 5])
     if fam == 'P14':
         prog['n'] = max(prog['n'], 2)
+        prog['m'] = max(prog['m'], 1)
         prog['bad'] = rng.randrange(prog['n']) if rng.random() < 0.7 else -1
     return prog
